@@ -136,129 +136,253 @@ func nonLoopGuards(ls []Lit) []Lit {
 // inner loop. Returns the kinds of the predicates in list order.
 func (c *Ctx) resolveOrderTable(find *ssa.Function, blk *ssa.BasicBlock) ([]string, bool) {
 	P := c.P
+	short0 := P.Desc(find.Params[1])
+	// (A) `if matches(candidate, shortName) { return candidate }` with matches ranging over the predicate list
+	// (outer loop) and candidate over the entries (inner loop)
 	var dyn *ssa.Call
+	var viaHelper *ssa.Call
 	for _, l := range P.BlockGuards(blk) {
 		if call := litCall(l); call != nil && l.Pos && call.Call.StaticCallee() == nil && !call.Call.IsInvoke() {
 			dyn = call
 		}
-	}
-	if dyn == nil || len(dyn.Call.Args) != 2 {
-		return nil, false
-	}
-	// callee value: element of a range over a global slice
-	var g *ssa.Global
-	var outerIdx ssa.Value
-	{
-		u, ok := dyn.Call.Value.(*ssa.UnOp)
-		if !ok {
-			return nil, false
-		}
-		ia, ok := u.X.(*ssa.IndexAddr)
-		if !ok || !(isRangeIndex(ia.Index) || isFullIndexLoopOver(ia.Index, ia.X)) {
-			return nil, false
-		}
-		outerIdx = ia.Index
-		if lu, ok := ia.X.(*ssa.UnOp); ok {
-			if gg, ok := lu.X.(*ssa.Global); ok {
-				g = gg
+		// (B) `if found := entries.first(matches); found != nil { return found }`
+		if v := nilCheckedValue(l); v != nil && !l.Pos {
+			if call, ok := v.(*ssa.Call); ok && call.Call.StaticCallee() != nil && P.IsProductFunc(call.Call.StaticCallee()) {
+				viaHelper = call
 			}
 		}
 	}
-	if g == nil {
+	var listElem ssa.Value // the predicate value tried in one round
+	var inLoop *ssa.BasicBlock
+	switch {
+	case dyn != nil && len(dyn.Call.Args) == 2:
+		listElem, inLoop = dyn.Call.Value, dyn.Block()
+	case viaHelper != nil:
+		h := viaHelper.Call.StaticCallee()
+		pi := -1
+		for i, a := range viaHelper.Call.Args {
+			if _, isF := a.Type().Underlying().(*types.Signature); isF {
+				if pi >= 0 {
+					return nil, false
+				}
+				pi = i
+			}
+		}
+		if pi < 0 || !c.firstMatchHelper(h, pi) {
+			return nil, false
+		}
+		// what is returned is the helper's answer
+		ret, _ := lastInstr(blk).(*ssa.Return)
+		if ret == nil || len(ret.Results) != 1 || ret.Results[0] != ssa.Value(viaHelper) {
+			return nil, false
+		}
+		listElem, inLoop = viaHelper.Call.Args[pi], viaHelper.Block()
+	default:
 		return nil, false
 	}
-	// the candidate loop is nested inside the predicate loop (priority first, then entries)
-	oi, ok := outerIdx.(ssa.Instruction)
+	// the predicate: element of a loop over the whole list, in index order
+	u, ok := listElem.(*ssa.UnOp)
+	if !ok {
+		return nil, false
+	}
+	ia, ok := u.X.(*ssa.IndexAddr)
+	if !ok || !(isRangeIndex(ia.Index) || isFullIndexLoopOver(ia.Index, ia.X)) {
+		return nil, false
+	}
+	oi, ok := ia.Index.(ssa.Instruction)
 	if !ok {
 		return nil, false
 	}
 	outer := loopOf(oi.Block())
-	if outer == nil || !outer[dyn.Block()] {
+	if outer == nil || !outer[inLoop] {
 		return nil, false
 	}
-	inner := loopOf(dyn.Block())
-	if inner == nil || len(inner) >= len(outer) {
+	if dyn != nil && viaHelper == nil {
+		// the candidate loop is nested inside the predicate loop (priority first, then entries)
+		inner := loopOf(dyn.Block())
+		if inner == nil || len(inner) >= len(outer) {
+			return nil, false
+		}
+	}
+	// the predicate loop is left early only with the match
+	for _, lp := range naturalLoops(find) {
+		if !lp.body[oi.Block()] || len(lp.body) < len(outer) {
+			continue
+		}
+		for _, ex := range lp.exits {
+			if ex[0] == lp.head {
+				continue
+			}
+			if ex[1] != blk {
+				return nil, false
+			}
+		}
+	}
+	// the list: function literals stored at constant indices of its backing array - a package-level variable
+	// initialised in init, or a slice literal of the function itself
+	var arr *ssa.Alloc
+	switch x := ia.X.(type) {
+	case *ssa.UnOp:
+		g, ok := x.X.(*ssa.Global)
+		if !ok {
+			return nil, false
+		}
+		allInstrs(g.Pkg.Func("init"), func(b *ssa.BasicBlock, ins ssa.Instruction) {
+			if st, ok := ins.(*ssa.Store); ok && st.Addr == g {
+				if sl, ok := st.Val.(*ssa.Slice); ok {
+					arr, _ = sl.X.(*ssa.Alloc)
+				}
+			}
+		})
+		// no other store to the variable
+		nSt := 0
+		for _, fn := range P.ModFuncs {
+			allInstrs(fn, func(b *ssa.BasicBlock, ins ssa.Instruction) {
+				if st, ok := ins.(*ssa.Store); ok && st.Addr == g {
+					nSt++
+				}
+			})
+		}
+		if nSt != 1 {
+			return nil, false
+		}
+	case *ssa.Slice:
+		if x.Low != nil || x.High != nil {
+			return nil, false
+		}
+		arr, _ = x.X.(*ssa.Alloc)
+	}
+	if arr == nil || arr.Referrers() == nil {
 		return nil, false
 	}
-	// the list: function literals stored into the backing array in package init
-	initFn := g.Pkg.Func("init")
+	at, ok := deref(arr.Type()).Underlying().(*types.Array)
+	if !ok {
+		return nil, false
+	}
 	type ent struct {
 		idx int64
 		fn  *ssa.Function
 	}
 	var ents []ent
-	allInstrs(initFn, func(b *ssa.BasicBlock, ins ssa.Instruction) {
-		st, ok := ins.(*ssa.Store)
-		if !ok || st.Addr != g {
-			return
-		}
-		sl, ok := st.Val.(*ssa.Slice)
+	for _, rr := range *arr.Referrers() {
+		ia2, ok := rr.(*ssa.IndexAddr)
 		if !ok {
-			return
+			continue
 		}
-		arr, ok := sl.X.(*ssa.Alloc)
-		if !ok {
-			return
+		k, isC := constInt(ia2.Index)
+		if !isC || ia2.Referrers() == nil {
+			return nil, false
 		}
-		for _, rr := range *arr.Referrers() {
-			ia, ok := rr.(*ssa.IndexAddr)
-			if !ok {
-				continue
-			}
-			k, isC := constInt(ia.Index)
-			if !isC {
-				continue
-			}
-			for _, s2 := range *ia.Referrers() {
-				if st2, ok := s2.(*ssa.Store); ok && st2.Addr == ia {
-					if f := P.closureValue(st2.Val, 0); f != nil {
-						ents = append(ents, ent{k, f})
-					}
+		for _, s2 := range *ia2.Referrers() {
+			if st2, ok := s2.(*ssa.Store); ok && st2.Addr == ia2 {
+				f := P.closureValue(st2.Val, 0)
+				if f == nil {
+					return nil, false
 				}
+				ents = append(ents, ent{k, f})
 			}
 		}
-	})
-	if len(ents) == 0 {
+	}
+	if len(ents) == 0 || int64(len(ents)) != at.Len() {
 		return nil, false
 	}
 	sort.Slice(ents, func(i, j int) bool { return ents[i].idx < ents[j].idx })
 	var kinds []string
 	for _, e := range ents {
 		kind := "?"
+		names := []string{short0}
 		if len(e.fn.Params) == 2 {
-			name := P.Desc(e.fn.Params[1])
-			allInstrs(e.fn, func(b *ssa.BasicBlock, ins ssa.Instruction) {
-				r, ok := ins.(*ssa.Return)
-				if !ok || len(r.Results) != 1 {
-					return
-				}
-				lits := append(append([]Lit{}, P.BlockGuards(b)...), literals(P.condFormula(r.Results[0], 0), true)...)
-				for _, l := range lits {
-					if l.Kind == "eq" && l.Pos {
-						other := ""
-						if P.Desc(l.X) == name {
-							other = P.Desc(l.Y)
-						} else if P.Desc(l.Y) == name {
-							other = P.Desc(l.X)
-						}
-						switch {
-						case strings.HasSuffix(other, "util.Import.Alias)"):
-							kind = "alias"
-						case strings.HasSuffix(other, "util.Import.PackageName)"):
-							kind = "name"
-						case strings.HasSuffix(other, "util.Import.FullPath)"):
-							kind = "path"
-						}
-					}
-					if call := litCall(l); call != nil && l.Pos && call.Call.StaticCallee() != nil && FuncName(call.Call.StaticCallee()) == "util.matchesPathComponentWithSlash" {
-						kind = "suffix"
-					}
-				}
-			})
+			names = append(names, P.Desc(e.fn.Params[1]))
 		}
+		isName := func(d string) bool {
+			for _, n := range names {
+				if d == n {
+					return true
+				}
+			}
+			return false
+		}
+		allInstrs(e.fn, func(b *ssa.BasicBlock, ins ssa.Instruction) {
+			r, ok := ins.(*ssa.Return)
+			if !ok || len(r.Results) != 1 {
+				return
+			}
+			lits := append(append([]Lit{}, P.BlockGuards(b)...), literals(P.condFormula(r.Results[0], 0), true)...)
+			for _, l := range lits {
+				if l.Kind == "eq" && l.Pos {
+					other := ""
+					if isName(P.Desc(l.X)) {
+						other = P.Desc(l.Y)
+					} else if isName(P.Desc(l.Y)) {
+						other = P.Desc(l.X)
+					}
+					switch {
+					case strings.HasSuffix(other, "util.Import.Alias)"):
+						kind = "alias"
+					case strings.HasSuffix(other, "util.Import.PackageName)"):
+						kind = "name"
+					case strings.HasSuffix(other, "util.Import.FullPath)"):
+						kind = "path"
+					}
+				}
+				if call := litCall(l); call != nil && l.Pos && call.Call.StaticCallee() != nil && FuncName(call.Call.StaticCallee()) == "util.matchesPathComponentWithSlash" {
+					kind = "suffix"
+				}
+			}
+		})
 		kinds = append(kinds, kind)
 	}
 	return kinds, true
+}
+
+// firstMatchHelper: h(entries, accept) returns the first entry (in index order, over the whole list) that accept
+// says yes to, nil if there is none: every non-nil result is the element accept was just called with, under a
+// positive answer; its loop is left early only with that result.
+func (c *Ctx) firstMatchHelper(h *ssa.Function, pi int) bool {
+	P := c.P
+	if len(h.Blocks) == 0 || pi >= len(h.Params) {
+		return false
+	}
+	acc := h.Params[pi]
+	okAll, nHit, nNil := true, 0, 0
+	hitBlocks := map[*ssa.BasicBlock]bool{}
+	allInstrs(h, func(b *ssa.BasicBlock, ins ssa.Instruction) {
+		r, ok := ins.(*ssa.Return)
+		if !ok || len(r.Results) != 1 {
+			return
+		}
+		if isNilConst(r.Results[0]) {
+			nNil++
+			return
+		}
+		good := false
+		for _, l := range P.BlockGuards(b) {
+			call := litCall(l)
+			if call == nil || !l.Pos || call.Call.Value != ssa.Value(acc) || len(call.Call.Args) != 1 {
+				continue
+			}
+			el, ok := call.Call.Args[0].(*ssa.IndexAddr)
+			if !ok || !(isRangeIndex(el.Index) || isFullIndexLoopOver(el.Index, el.X)) {
+				continue
+			}
+			if rel, ok := r.Results[0].(*ssa.IndexAddr); ok && (rel == el || (rel.X == el.X && rel.Index == el.Index)) {
+				good = true
+			}
+		}
+		if !good {
+			okAll = false
+		}
+		nHit++
+		hitBlocks[b] = true
+	})
+	for _, lp := range naturalLoops(h) {
+		for _, ex := range lp.exits {
+			if ex[0] != lp.head && !hitBlocks[ex[1]] {
+				okAll = false
+			}
+		}
+	}
+	return okAll && nHit >= 1 && nNil >= 1
 }
 
 func (c *Ctx) ruleImportResolution() {
